@@ -364,7 +364,7 @@ func (e *c16Env) e2eOnce(h *c16Hist, i int) (failure string) {
 	return
 }
 
-func encSnap(enc *emit.Enc, s c16Snap, h *c16Hist) c16Obs {
+func c16EncSnap(enc *emit.Enc, s c16Snap, h *c16Hist) c16Obs {
 	var o c16Obs
 	o.Err = s.errStr
 	enc.Bool(s.err)
@@ -493,9 +493,9 @@ func (e *c16Env) runHistory(w *emit.Writer, in c16In, desc map[string]any, r *ra
 		for k, st := range in.Steps {
 			enc.Bool(st.Clean).Int(st.Order).Bool(false).Bool(false).Bool(false).Int(0)
 			if k == len(in.Steps)-1 {
-				obsList = append(obsList, encSnap(enc, final, h))
+				obsList = append(obsList, c16EncSnap(enc, final, h))
 			} else {
-				encSnap(enc, c16Snap{}, h)
+				c16EncSnap(enc, c16Snap{}, h)
 			}
 		}
 	} else {
@@ -512,7 +512,7 @@ func (e *c16Env) runHistory(w *emit.Writer, in c16In, desc map[string]any, r *ra
 				snap = e.observe(h, err)
 			}
 			enc.Bool(st.Clean).Int(st.Order).Bool(st.Cancel).Bool(st.Storage).Bool(st.Provider).Int(bindOf(st, snap))
-			obsList = append(obsList, encSnap(enc, snap, h))
+			obsList = append(obsList, c16EncSnap(enc, snap, h))
 			pending[st.Order] = !st.Clean
 			// now and then validate a pending challenge through the real listener
 			if e2eEvery > 0 && (e.seq+k)%e2eEvery == 0 {
